@@ -176,14 +176,30 @@ class Printer:
     def __init__(self, **opts: Any):
         self.o = opts
         self.lines: list[str] = []
+        # positions of AST nodes in the printed text (0-based line, column), for multi-line layouts:
+        # (role, node, line, column) with role in stmt / cond / switch_header / case_header / macrocall
+        self.positions: list[tuple[str, Any, int, int]] = []
 
-    def emit(self, ind: int, text: str) -> None:
+    def emit(self, ind: int, text: str, node: Any = None, role: str = "stmt", subs: Any = None) -> None:
         pad = " " * (self.o.get("indent", 4) * ind)
         if self.o.get("comments"):
             text = text + " /* c */"
+        if node is not None:
+            self.positions.append((role, node, len(self.lines), len(pad)))
+        for (r2, n2, off) in (subs or []):
+            self.positions.append((r2, n2, len(self.lines), len(pad) + off))
         self.lines.append(pad + text)
         for _ in range(self.o.get("blank_lines", 0)):
             self.lines.append("")
+
+    def _cond_subs(self, prefix: str, neg: bool, conds: list[tuple]) -> list[tuple[str, Any, int]]:
+        """column offsets of the conditions inside `<prefix>[not ](c1 || c2)`"""
+        off = len(prefix) + (4 if neg else 0) + 1
+        out = []
+        for c in conds:
+            out.append(("cond", c, off))
+            off += len(fmt_cond(c, self.o)) + 4
+        return out
 
     def body(self, stmts: list[tuple], ind: int) -> None:
         for s in stmts:
@@ -196,20 +212,21 @@ class Printer:
         o = self.o
         t = s[0]
         if t in SIMPLE:
-            self.emit(ind, fmt_simple(s, o))
+            self.emit(ind, fmt_simple(s, o), s)
         elif t == "macrocall":
-            self.emit(ind, f"~{s[1]}({fmt_args(s[2], o)});")
+            self.emit(ind, f"~{s[1]}({fmt_args(s[2], o)});", s, "macrocall")
         elif t == "with":
             _, kind, target, inner = s
-            self.emit(ind, f"with ({kind} {fmt_value(target, 0, o)}) {{")
-            self.emit(ind + 1, fmt_simple(inner, o))
+            self.emit(ind, f"with ({kind} {fmt_value(target, 0, o)}) {{", s, "with")
+            self.emit(ind + 1, fmt_simple(inner, o), inner)
             self.emit(ind, "}")
         elif t == "if":
             _, neg, conds, body, elifs, els = s
-            self.emit(ind, f"if {self.conds(neg, conds)} {{")
+            self.emit(ind, f"if {self.conds(neg, conds)} {{", s, "block", self._cond_subs("if ", neg, conds))
             self.body(body, ind + 1)
-            for (eneg, econds, ebody) in elifs:
-                self.emit(ind, f"}} elseif {self.conds(eneg, econds)} {{")
+            for ei, (eneg, econds, ebody) in enumerate(elifs):
+                self.emit(ind, f"}} elseif {self.conds(eneg, econds)} {{", (s, "elif", ei), "block",
+                          self._cond_subs("} elseif ", eneg, econds))
                 self.body(ebody, ind + 1)
             if els is not None:
                 self.emit(ind, "} else {")
@@ -217,30 +234,34 @@ class Printer:
             self.emit(ind, "}")
         elif t == "switch":
             _, header, cases = s
-            self.emit(ind, f"switch ({fmt_switch_header(header, o)}) {{")
+            self.emit(ind, f"switch ({fmt_switch_header(header, o)}) {{", s, "block", [("switch_header", header, 8)])
             for (kh, body) in cases:
-                self.emit(ind + 1, "default:" if kh is None else f"case {fmt_case_header(kh, o)}:")
+                self.emit(ind + 1, "default:" if kh is None else f"case {fmt_case_header(kh, o)}:", None, "stmt",
+                          [] if kh is None else [("case_header", kh, 5)])
                 self.body(body, ind + 2)
             self.emit(ind, "}")
         elif t == "msgswitch":
             _, kind, var, cases = s
-            self.emit(ind, f"{kind} ({fmt_value(var, 0, o)}) {{")
+            self.emit(ind, f"{kind} ({fmt_value(var, 0, o)}) {{", s, "block")
             for (val, text) in cases:
                 self.emit(ind + 1, "default:" if val is None else f"case {fmt_value(val, 0, o)}:")
                 self.emit(ind + 2, fmt_value(text, 0, o))
             self.emit(ind, "}")
         elif t == "forever":
-            self.emit(ind, "forever {")
+            self.emit(ind, "forever {", s, "block")
             self.body(s[1], ind + 1)
             self.emit(ind, "}")
         elif t == "while":
             _, neg, cond, body = s
-            self.emit(ind, f"while {'not ' if neg else ''}({fmt_cond(cond, o)}) {{")
+            self.emit(ind, f"while {'not ' if neg else ''}({fmt_cond(cond, o)}) {{", s, "block",
+                      [("cond", cond, len("while ") + (4 if neg else 0) + 1)])
             self.body(body, ind + 1)
             self.emit(ind, "}")
         elif t == "for":
             _, init, cond, incr, body = s
-            self.emit(ind, f"for ({fmt_simple(init, o)} {fmt_cond(cond, o)}; {fmt_simple(incr, o)}) {{")
+            i_txt, c_txt = fmt_simple(init, o), fmt_cond(cond, o)
+            self.emit(ind, f"for ({i_txt} {c_txt}; {fmt_simple(incr, o)}) {{", s, "block",
+                      [("stmt", init, 5), ("cond", cond, 5 + len(i_txt) + 1), ("stmt", incr, 5 + len(i_txt) + 1 + len(c_txt) + 2)])
             self.body(body, ind + 1)
             self.emit(ind, "}")
         else:
@@ -286,3 +307,10 @@ class Printer:
 
 def to_text(p: dict[str, Any], **opts: Any) -> str:
     return Printer(**opts).program(p)
+
+
+def to_text_with_positions(p: dict[str, Any], **opts: Any) -> tuple[str, list[tuple[str, Any, int, int]]]:
+    pr = Printer(**opts)
+    assert not opts.get("one_line")
+    text = pr.program(p)
+    return text, pr.positions
